@@ -17,6 +17,10 @@ LEVEL = "proof"
 def run(repo, chk, tier):
     from ..model import AnalysisError
 
+    from ..cacheown import check_cache_ownership
+
+    # the polynomial table generator is memoised and consulted by the numeric and the symbolic side
+    check_cache_ownership(repo, chk, ["tf_pwa/breit_wigner.py"], 1, 2)
     check_bw_tables(repo, chk, tier)
     try:
         check_kernels(repo, chk, tier)
